@@ -857,4 +857,5 @@ func main() {
 	}
 	transportScenarios(r, thorough)
 	idWrapCases()
+	discoverCase(thorough)
 }
